@@ -132,8 +132,43 @@ func (in *Interp) symStringToBytes(s *SymStr) Slice {
 	return Slice{symBytes{s}}
 }
 
-func (in *Interp) sprintLike(args Slice) Value {
-	return &SymStr{opaque: true}
+// sprintLike implements fmt.Sprint (ln=false) / fmt.Sprintln (ln=true) for the operand shapes
+// formatValue knows; anything else yields an opaque text.
+func (in *Interp) sprintLike(fr *frame, args Slice, ln bool) Value {
+	var out Value = ""
+	prevString := false
+	for i, a := range args {
+		arg, ok := a.(Iface)
+		if !ok {
+			return &SymStr{opaque: true}
+		}
+		isString := false
+		if arg.t != nil {
+			if b, ok := underlying(arg.t).(*types.Basic); ok && b.Info()&types.IsString != 0 {
+				isString = true
+			}
+		}
+		// Sprint adds a space between operands when neither is a string; Sprintln always
+		if i > 0 && (ln || (!isString && !prevString)) {
+			out = in.strConcat(out, " ")
+		}
+		var p Value = "<nil>"
+		if arg.t != nil {
+			p = in.formatValue(fr, arg.t, arg.v, 'v', 0)
+		}
+		if p == nil {
+			return &SymStr{opaque: true}
+		}
+		if ss, ok := p.(*SymStr); ok && ss.opaque {
+			return ss
+		}
+		out = in.strConcat(out, p)
+		prevString = isString
+	}
+	if ln {
+		out = in.strConcat(out, "\n")
+	}
+	return out
 }
 
 // ---- equality
